@@ -59,15 +59,18 @@ class ParsedHeaders(Mapping[bytes, Sequence[BaseHeader]]):
             #   https://github.com/python/typeshed/pull/4365
             # assign to hdr_name, hdr_value = ... instead.
             hdr_tuple = SMTP.header_source_parse(lines)
+            # White space between the name and the colon is obsolete syntax
+            # (RFC 5322 4.5), the name selects the type of the header.
+            hdr_name = hdr_tuple[0].strip()
             try:
-                header = cls._registry(hdr_tuple[0], hdr_tuple[1])
+                header = cls._registry(hdr_name, hdr_tuple[1])
             except Exception:
                 # The parsers of email.headerregistry have no error path for
                 # a value they cannot digest: depending on the value and the
                 # Python version they raise IndexError, AttributeError,
                 # TypeError, RecursionError... Such a header is treated as
                 # an empty header of the same type.
-                header = cls._registry(hdr_tuple[0], '')
+                header = cls._registry(hdr_name, '')
             yield header
 
     def __repr__(self) -> str:
